@@ -97,6 +97,9 @@ PoolClass(e) ==
      ELSE IF ~own \/ e.off < st.obj.hdr THEN "foreign"
      ELSE IF \E n \in st.live : n.b = e.b /\ n.off < e.off /\ e.off < n.off + n.len THEN "offstride"
      ELSE IF <<e.b, e.off>> \in st.freed THEN "double"
+     \* inside the pool's block but in no node, live or free (the chunk header of a small-node pool): as foreign
+     \* as memory of another allocator
+     ELSE IF e.kind = "foreign" THEN "foreign"
      ELSE "unknown"
 
 ClassOf(e) ==
